@@ -35,7 +35,8 @@ MENTIONS = ["none", "earlier-note", "later-note", "earlier-zid-link"]
 OWN_TAGS = ["none", "same-as-inherited", "extends-inherited"]
 DESTS = ["missing-no-template", "missing-template", "header-only", "header-blank", "block-nl", "block-no-nl",
          "block-two-blank", "block-then-section", "ends-with-section-header", "mentions-zid",
-         "ends-with-section-header-no-nl", "missing-template-ending-in-section", "same-page"]
+         "ends-with-section-header-no-nl", "missing-template-ending-in-section", "same-page",
+         "existing-and-matching-a-template"]
 MARKERS = [None, "x", "~"]
 
 
@@ -101,6 +102,9 @@ def build_dest(kind):
         return None, {r"dest\.zo": "dest2.zot"}
     if kind == "same-page":
         return "<SAME>", {}
+    if kind == "existing-and-matching-a-template":
+        # the page exists AND a template pattern matches its name: it must be left as it is
+        return "# Dest page\n\n- 240201#D1 dest note one\n- 240202#D2 dest note two\n", {r"dest\.zo": "dest.zot"}
     if kind == "mentions-zid":
         return f"# Dest page\n\n- 240201#D1 dest note about {MZ} and more\n", {}
     raise H.HarnessError(kind)
